@@ -593,7 +593,8 @@ def run_check(modname: str, tier: str, seed: int, replay: str | None = None) -> 
 
     wall = time.time() - t0
     coverage = {
-        "evaluations": total.evals + n_regress,
+        "evaluations": (total.units if getattr(mod, "EVALUATIONS_ARE_UNITS", False) else total.evals) + n_regress,
+        "cases": total.evals,
         "distinct_nontrivial": len(total.digests),
         "rule": mod.RULE,
         "samples": [_trim(s) for s in total.samples[:5]],
